@@ -43,7 +43,7 @@ Print Assumptions c19_digest_sound.
 
 (** Conversely, for algorithm MD5 and qop absent or auth, such a header is
     admitted.  (MD5-sess and auth-int headers never satisfy the hypothesis: the
-    code answers them 400 resp. raises TypeError - see c19_digest_reject_partial.) *)
+    code answers both with 400 - see c19_digest_reject_partial.) *)
 Theorem c19_digest_complete :
   forall H get_ha1 dec_accept parse_params c header m now a ts login,
   credentials_verify H get_ha1 dec_accept parse_params c header m a ts login ->
@@ -52,13 +52,13 @@ Theorem c19_digest_complete :
 Proof. exact thm_digest_complete. Qed.
 Print Assumptions c19_digest_complete.
 
-(** Every other header: 400 exactly when it does not parse; or 401 with the
-    challenge for the configured realm over a fresh nonce, carrying stale="true"
-    exactly when everything verified over a genuine nonce that has expired; or
-    one of the three untranslated exceptions (1 TypeError for qop=auth-int, 2
-    ValueError for qop="", 3 a non-ValueError exception of urllib's parser) which
-    end the request with 500 (reported under C07); or a nonce timestamp outside
-    the modelled domain of int().  None of them reaches the handler.
+(** Every other header: 400 when it does not parse, or when it parses with
+    qop=auth-int (which this server never offers); or 401 with the challenge
+    for the configured realm over a fresh nonce, carrying stale="true" exactly
+    when everything verified over a genuine nonce that has expired; or 500 when
+    urllib's parser raises something other than ValueError/IndexError (no such
+    input is known; the harness has never observed it); or a nonce timestamp
+    outside the modelled domain of int().  None of them reaches the handler.
 
     PARTIAL with respect to the full statement, which is
       c19_digest_reject: ... 401 with a challenge that RE-PARSES (under an RFC 7235
@@ -73,13 +73,15 @@ Theorem c19_digest_reject_partial :
   forall H get_ha1 dec_accept parse_params c header m now o,
   fst (digest_auth H get_ha1 dec_accept parse_params c header m now) = o ->
   (forall login, o <> Reached login) ->
-  (o = R400 /\ forall a, ~ header_parses dec_accept parse_params (oval header) m a)
+  (o = R400 /\ ((forall a, ~ header_parses dec_accept parse_params (oval header) m a)
+                \/ exists a, header_parses dec_accept parse_params (oval header) m a
+                             /\ a_qop a = Some s_auth_int))
   \/ (exists stale, o = R401 (digest_challenge H c now stale)
         /\ (stale = true <->
             exists a ts login,
               credentials_verify H get_ha1 dec_accept parse_params c header m a ts login
               /\ nonce_expired ts now))
-  \/ (exists w, o = R500 w /\ (w = 1 \/ w = 2 \/ w = 3))
+  \/ (o = R500 3 /\ forall a, ~ header_parses dec_accept parse_params (oval header) m a)
   \/ o = Unsupported 1.
 Proof. exact thm_digest_reject. Qed.
 Print Assumptions c19_digest_reject_partial.
